@@ -1027,7 +1027,8 @@ class CallMixin(object):
 
     def m_str_join(self, recv, args, kw, st, node):
         a = args[0]
-        if isinstance(a.ty, List) and a.ty.elem is STR:
+        if isinstance(a.ty, List) and (a.ty.elem is STR or isinstance(a.ty.elem, core.U)):
+            # a deterministic function of the separator and the list (elements of an opaque character sort are one-character strings)
             return [(st, core.ufun("str_join", [recv, a], STR))]
         self.notes.append("str.join over a non-list is an opaque string")
         return [(st, fresh(STR, "join"))]
